@@ -123,6 +123,7 @@ type Ctx struct {
 	Level          string
 	Workers        int
 	Deadline       time.Time
+	PartBudget     time.Duration // wall-clock share of one DFS part (0: only the overall deadline)
 	Parts          []*Part
 	Assume         []string
 	Rule           string
@@ -196,6 +197,11 @@ func (c *Ctx) DFS(name string, b explore.Bounds) *Part {
 	c.Parts = append(c.Parts, p)
 	if b.Deadline.IsZero() {
 		b.Deadline = c.Deadline
+		// no single part may eat the budget of the parts behind it (on a loaded machine the expensive
+		// scenarios would otherwise starve everything that follows them)
+		if pd := time.Now().Add(c.PartBudget); c.PartBudget > 0 && pd.Before(b.Deadline) {
+			b.Deadline = pd
+		}
 	}
 	st := explore.NewStats()
 	if b.POR && os.Getenv("VERIF_INPROC") != "" {
@@ -807,6 +813,7 @@ func Main(id, tier string, seed int, verifDir, self string, budget time.Duration
 		fmt.Sscanf(w, "%d", &c.Workers)
 	}
 	c.Deadline = t0.Add(budget)
+	c.PartBudget = budget / 6
 	if b, err := os.ReadFile(filepath.Join(verifDir, "known_findings.json")); err == nil {
 		var kf struct {
 			Findings []Known `json:"findings"`
